@@ -3,7 +3,7 @@ From Coq Require Import Permutation Sorted.
 From ZV.Common Require Import Base.
 From ZV.C10 Require Import Model Spec ProofsPow2 ProofsRing ProofsHist ProofsVec ProofsValVec ProofsFixed.
 From ZV.Gen Require Import ConstsC10.
-From ZV.C10 Require Import ModelValVec32 ProofsValVec32 ModelArena ProofsArena ModelStrVec ProofsStrVec ModelFixedLen ProofsFixedLen ModelFastVecCopy ProofsFastVecCopy ModelCases.
+From ZV.C10 Require Import ModelValVec32 ProofsValVec32 ModelArena ProofsArena ModelStrVec ProofsStrVec ModelFixedLen ProofsFixedLen ModelFastVecCopy ProofsFastVecCopy ModelCacheVec ProofsCacheVec ModelBitPacked ProofsBitPacked ModelRingBulk ProofsRingBulk ModelCases.
 Open Scope N_scope.
 
 (* ensure_power_of_two (bit smearing) returns a power of two that is large enough, for every request up to 2^62 *)
@@ -693,3 +693,165 @@ Check fastvec_copy_from_refuted :
   match fvc_step N 8 k_copy k_fill v12 (CCopyFrom [9]) with Ok (v, _) => vlen v = 1 /\ vbuf v 0 = Some 9 /\ vbuf v 1 = None | UB => False end /\
   match fvc_step N 8 k_copy k_fill v12 (CCopyFrom []) with Ok (v, _) => vlen v = 0 /\ vbuf v 0 = None | UB => False end.
 Print Assumptions fastvec_copy_from_refuted.
+
+(* ===== extension 3: memory::cache::CacheAlignedVec and BumpVec (ModelCacheVec.v) ===== *)
+
+(* memory::cache::CacheAlignedVec::reallocate: for every element size and every request of at most 2^62 bytes the
+   capacity recorded after `(n * size + 63) & !63` / size covers the request and wastes less than one cache line *)
+Theorem cachevec_capacity_aligned :
+  forall sz n, 0 < sz -> n * sz <= 2 ^ 62 ->
+  exists a, cav_aligned_capacity sz n = Some a /\ n <= a /\ a * sz <= n * sz + 63.
+Proof. exact ProofsCacheVec.cav_aligned_ok. Qed.
+Check cachevec_capacity_aligned :
+  forall sz n, 0 < sz -> n * sz <= 2 ^ 62 ->
+  exists a, cav_aligned_capacity sz n = Some a /\ n <= a /\ a * sz <= n * sz + 63.
+Print Assumptions cachevec_capacity_aligned.
+
+(* cachevec_refines_list: for every element type and size, requested capacity and history of push/pop/get/clear/
+   truncate/reserve whose slots fit 2^60 bytes, the model of memory::cache::CacheAlignedVec never touches a slot
+   outside its block or an uninitialised one (no UB), nothing is refused, every operation returns what a Vec returns
+   (values, and the elements destroyed by clear/truncate in order), and the final state holds the Vec's sequence *)
+Theorem cachevec_refines_list :
+  forall (A : Type) sz c (ops : list (aop A)), 0 < sz -> (c + ahist_size A ops) * sz <= 2 ^ 60 ->
+  exists v0 v', cav_with_capacity A sz c = Ok (Some v0) /\ c <= acap v0 /\
+                cav_run A sz v0 ops = Ok (v', snd (avec_run A [] ops)) /\ AW A v' (fst (avec_run A [] ops)).
+Proof. exact ProofsCacheVec.cachevec_refines_list_proof. Qed.
+Check cachevec_refines_list :
+  forall (A : Type) sz c (ops : list (aop A)), 0 < sz -> (c + ahist_size A ops) * sz <= 2 ^ 60 ->
+  exists v0 v', cav_with_capacity A sz c = Ok (Some v0) /\ c <= acap v0 /\
+                cav_run A sz v0 ops = Ok (v', snd (avec_run A [] ops)) /\ AW A v' (fst (avec_run A [] ops)).
+Print Assumptions cachevec_refines_list.
+
+(* over a whole history followed by Drop the pushed elements are - as a multiset - exactly the elements handed back
+   by pop plus the elements destroyed by clear, truncate and Drop; no initialised slot is left in the freed block *)
+Theorem cachevec_exactly_once :
+  forall (A : Type) sz c (ops : list (aop A)), 0 < sz -> (c + ahist_size A ops) * sz <= 2 ^ 60 ->
+  exists v0 v' outs v'' d,
+    cav_with_capacity A sz c = Ok (Some v0) /\ cav_run A sz v0 ops = Ok (v', outs) /\
+    cav_drop A v' = Ok (v'', d) /\
+    Permutation (ahistory_in A ops) (ahistory_out A ops outs ++ d) /\
+    (forall j, abuf v'' j = None).
+Proof. exact ProofsCacheVec.cachevec_exactly_once_proof. Qed.
+Check cachevec_exactly_once :
+  forall (A : Type) sz c (ops : list (aop A)), 0 < sz -> (c + ahist_size A ops) * sz <= 2 ^ 60 ->
+  exists v0 v' outs v'' d,
+    cav_with_capacity A sz c = Ok (Some v0) /\ cav_run A sz v0 ops = Ok (v', outs) /\
+    cav_drop A v' = Ok (v'', d) /\
+    Permutation (ahistory_in A ops) (ahistory_out A ops outs ++ d) /\
+    (forall j, abuf v'' j = None).
+Print Assumptions cachevec_exactly_once.
+
+(* truncate(n) destroys exactly the elements from n on, in order, keeps the first n and the capacity *)
+Theorem cachevec_truncate_drops_tail :
+  forall (A : Type) v (l : list A) n, AW A v l ->
+  exists v', cav_truncate A v n = Ok (v', skipn (N.to_nat n) l) /\ AW A v' (firstn (N.to_nat n) l) /\ acap v' = acap v.
+Proof. exact ProofsCacheVec.AW_truncate. Qed.
+Check cachevec_truncate_drops_tail :
+  forall (A : Type) v (l : list A) n, AW A v l ->
+  exists v', cav_truncate A v n = Ok (v', skipn (N.to_nat n) l) /\ AW A v' (firstn (N.to_nat n) l) /\ acap v' = acap v.
+Print Assumptions cachevec_truncate_drops_tail.
+
+(* BumpVec: for every element type, capacity > 0 and history of push/pop/get the model never touches a slot outside
+   the block handed out by the allocator or an uninitialised one, a push is refused exactly when len = capacity (the
+   refused value is destroyed, nothing else changes), everything else is what a Vec returns; capacity never changes *)
+Theorem bumpvec_refines_bounded_vec :
+  forall (A : Type) c (ops : list (bop A)), 0 < c ->
+  exists v0 v', bv_new_in A c = Some v0 /\ bv_run A v0 ops = Ok (v', snd (bvec_run A c [] ops)) /\
+                AW A v' (fst (bvec_run A c [] ops)) /\ acap v' = c /\ nlen (fst (bvec_run A c [] ops)) <= c.
+Proof. exact ProofsCacheVec.bumpvec_refines_bounded_vec_proof. Qed.
+Check bumpvec_refines_bounded_vec :
+  forall (A : Type) c (ops : list (bop A)), 0 < c ->
+  exists v0 v', bv_new_in A c = Some v0 /\ bv_run A v0 ops = Ok (v', snd (bvec_run A c [] ops)) /\
+                AW A v' (fst (bvec_run A c [] ops)) /\ acap v' = c /\ nlen (fst (bvec_run A c [] ops)) <= c.
+Print Assumptions bumpvec_refines_bounded_vec.
+
+(* history + Drop of a BumpVec: pushed = popped + destroyed (refused values, Drop), nothing initialised stays behind *)
+Theorem bumpvec_exactly_once :
+  forall (A : Type) c (ops : list (bop A)), 0 < c ->
+  exists v0 v' outs v'' d,
+    bv_new_in A c = Some v0 /\ bv_run A v0 ops = Ok (v', outs) /\
+    bv_drop A v' = Ok (v'', d) /\
+    Permutation (bhistory_in A ops) (bhistory_out A ops outs ++ d) /\
+    (forall j, abuf v'' j = None).
+Proof. exact ProofsCacheVec.bumpvec_exactly_once_proof. Qed.
+Check bumpvec_exactly_once :
+  forall (A : Type) c (ops : list (bop A)), 0 < c ->
+  exists v0 v' outs v'' d,
+    bv_new_in A c = Some v0 /\ bv_run A v0 ops = Ok (v', outs) /\
+    bv_drop A v' = Ok (v'', d) /\
+    Permutation (bhistory_in A ops) (bhistory_out A ops outs ++ d) /\
+    (forall j, abuf v'' j = None).
+Print Assumptions bumpvec_exactly_once.
+
+(* ===== extension 3: BitPackedStringVec32/64 (ModelBitPacked.v) ===== *)
+
+(* BitPackedEntry: offset()/length() of a packed entry are the packed values whenever each fits its bit field
+   (32 + 32 bits for the u32 variant, 40 + 24 bits for the u64 variant); bit-level proof *)
+Theorem bitpacked_entry_roundtrip :
+  forall (w64 : bool) o l, o <= (if w64 then MASK40 else U32_MAX) -> l <= bp_max_length w64 ->
+  bp_offset w64 (bp_pack w64 o l) = o /\ bp_length w64 (bp_pack w64 o l) = l.
+Proof. exact ProofsBitPacked.bp_unpack. Qed.
+Check bitpacked_entry_roundtrip :
+  forall (w64 : bool) o l, o <= (if w64 then MASK40 else U32_MAX) -> l <= bp_max_length w64 ->
+  bp_offset w64 (bp_pack w64 o l) = o /\ bp_length w64 (bp_pack w64 o l) = l.
+Print Assumptions bitpacked_entry_roundtrip.
+
+(* bitpacked_refines_list: for both variants and every history of push/get/get_bytes/len over well-formed UTF-8
+   strings (64-bit variant: at most 2^40 - 1 bytes pushed in total, the width of its offset field), no indexing panics,
+   push returns the Vec index or refuses exactly at the limits (u32 variant: arena would exceed u32::MAX; u64 variant:
+   string longer than 2^24 - 1 bytes - whose bytes stay in the arena without an entry), get/get_bytes i = i-th accepted
+   string, len = their number; BV holds at the end *)
+Theorem bitpacked_refines_list :
+  forall (w64 : bool) (ops : list pop), Forall pop_wf ops -> (w64 = true -> phist_bytes ops <= MASK40) ->
+  exists v', bpv_run w64 bpv_new ops = Done (v', snd (bps_run w64 ([], 0) ops)) /\
+             BV w64 v' (fst (bps_run w64 ([], 0) ops)).
+Proof. exact ProofsBitPacked.bitpacked_refines_list_proof. Qed.
+Check bitpacked_refines_list :
+  forall (w64 : bool) (ops : list pop), Forall pop_wf ops -> (w64 = true -> phist_bytes ops <= MASK40) ->
+  exists v', bpv_run w64 bpv_new ops = Done (v', snd (bps_run w64 ([], 0) ops)) /\
+             BV w64 v' (fst (bps_run w64 ([], 0) ops)).
+Print Assumptions bitpacked_refines_list.
+
+(* strings of at most 2^24 - 1 bytes with a total of at most u32::MAX bytes are all accepted by both variants and
+   get / get_bytes i is the i-th pushed string byte for byte *)
+Theorem bitpacked_get_pushes :
+  forall (w64 : bool) (ss : list bytes) i,
+  Forall (fun s => utf8_valid s = true /\ nlen s <= MASK24) ss -> nlen (concat ss) <= U32_MAX ->
+  exists v outs, bpv_run w64 bpv_new (map PPush ss) = Done (v, outs) /\
+                 bpv_get w64 v i = Done (nth_error ss (N.to_nat i)) /\
+                 bpv_get_bytes w64 v i = Done (nth_error ss (N.to_nat i)) /\ nlen (pentries v) = nlen ss.
+Proof. exact ProofsBitPacked.bitpacked_get_pushes_proof. Qed.
+Check bitpacked_get_pushes :
+  forall (w64 : bool) (ss : list bytes) i,
+  Forall (fun s => utf8_valid s = true /\ nlen s <= MASK24) ss -> nlen (concat ss) <= U32_MAX ->
+  exists v outs, bpv_run w64 bpv_new (map PPush ss) = Done (v, outs) /\
+                 bpv_get w64 v i = Done (nth_error ss (N.to_nat i)) /\
+                 bpv_get_bytes w64 v i = Done (nth_error ss (N.to_nat i)) /\ nlen (pentries v) = nlen ss.
+Print Assumptions bitpacked_get_pushes.
+
+(* ===== extension 3: AutoGrowCircularQueue::pop_bulk and the caller's slice (ModelRingBulk.v) ===== *)
+
+(* pop_bulk(&mut out) seen from the caller's slice: for every ring holding l (any head offset, wrapped or not) and every
+   slice, the first k = min(|out|, |l|) slots of the slice receive the first k elements of l in order, exactly the k
+   overwritten values are destroyed (in index order, each once), the other slots keep their values, no uninitialised
+   slot is read, and the ring holds the rest of l *)
+Theorem ring_pop_bulk_into_slice :
+  forall (A : Type) q (l out : list A), R A q l ->
+  let k := Nat.min (length out) (length l) in
+  exists q', pop_bulk_into A q out = Ok (q', (firstn k l ++ skipn k out, firstn k out)) /\ R A q' (skipn k l).
+Proof. exact ProofsRingBulk.ring_pop_bulk_into_proof. Qed.
+Check ring_pop_bulk_into_slice :
+  forall (A : Type) q (l out : list A), R A q l ->
+  let k := Nat.min (length out) (length l) in
+  exists q', pop_bulk_into A q out = Ok (q', (firstn k l ++ skipn k out, firstn k out)) /\ R A q' (skipn k l).
+Print Assumptions ring_pop_bulk_into_slice.
+
+(* the slice-level function moves exactly what Model.pop_bulk (the operation of ring_refines_deque) moves *)
+Theorem ring_pop_bulk_into_agrees :
+  forall (A : Type) q (out : list A) q' xs, pop_bulk A q (nlen out) = Ok (q', xs) ->
+  pop_bulk_into A q out = Ok (q', (xs ++ skipn (length xs) out, firstn (length xs) out)).
+Proof. exact ProofsRingBulk.pop_bulk_into_spec. Qed.
+Check ring_pop_bulk_into_agrees :
+  forall (A : Type) q (out : list A) q' xs, pop_bulk A q (nlen out) = Ok (q', xs) ->
+  pop_bulk_into A q out = Ok (q', (xs ++ skipn (length xs) out, firstn (length xs) out)).
+Print Assumptions ring_pop_bulk_into_agrees.
